@@ -146,6 +146,60 @@ def _steer_kind(kind, kfids, steered):
 _DP = gen.dims(Dmax=6, Pmax=4)
 
 
+# ---------------------------------------------------------------------------
+# memory layouts: the same values and shape on a different buffer ("all shapes ... and values" includes the layout)
+# ---------------------------------------------------------------------------
+
+def _lay(a, layout, perm=None):
+    """array with the values and shape of ``a`` (any dtype, also object) laid out as requested:
+    C  C-contiguous copy                      F  Fortran-ordered copy
+    T  transposed view of a C-contiguous buffer (what ``.T`` of a freshly built array is)
+    perm  view of a C buffer whose axes are stored in the order ``perm``
+    strided  every second entry (per axis) of a larger buffer        reversed  negative strides on every axis"""
+    a = np.asarray(a)
+    if layout == 'C' or a.ndim == 0 or a.size == 0:
+        return np.array(a, order='C', copy=True)
+    if layout == 'F':
+        return np.array(a, order='F', copy=True)
+    if layout == 'T':
+        return np.ascontiguousarray(a.T).T
+    if layout == 'perm':
+        perm = [int(i) for i in perm]
+        return np.ascontiguousarray(a.transpose(perm)).transpose([int(i) for i in np.argsort(perm)])
+    if layout == 'strided':
+        big = np.zeros(tuple(2 * n for n in a.shape), dtype=a.dtype)
+        v = big[tuple(slice(None, None, 2) for _ in a.shape)]
+        v[...] = a
+        return v
+    if layout == 'reversed':
+        sl = tuple(slice(None, None, -1) for _ in a.shape)
+        return np.ascontiguousarray(a[sl])[sl]
+    raise KeyError(layout)
+
+
+def _lay_case(case, a, key='layout'):
+    return _lay(a, case.get(key) or 'C', case.get(key + '_perm'))
+
+
+@st.composite
+def _draw_layout(draw, case, ndim, key='layout', perm=True):
+    """adds case[key] (and case[key+'_perm']); layouts that coincide with C for the given rank are recorded as C"""
+    lay = draw(st.sampled_from(['C', 'C', 'F', 'T', 'T', 'perm', 'strided', 'reversed'] if perm else
+                               ['C', 'C', 'F', 'T', 'T', 'strided', 'reversed']))
+    if ndim < 2 and lay in ('F', 'T', 'perm'):
+        lay = 'C'
+    if ndim < 1:
+        lay = 'C'
+    case[key] = lay
+    if lay == 'perm':
+        case[key + '_perm'] = list(draw(st.permutations(list(range(ndim)))))
+    return lay
+
+
+def _layout_classes(case, key='layout'):
+    return ['%s=%s' % (key, case.get(key) or 'C')]
+
+
 def _dtype_classes(a):
     return ['dtype=' + str(np.asarray(a).dtype)]
 
@@ -172,7 +226,7 @@ def prop_b2u_u2b(case, stats):
     """(x, V) -> UTPM -> (x, V)"""
     _note_steered(case, stats)
     x, V = case['x'], case['V']
-    xin, Vin = x.copy(), V.copy()
+    xin, Vin = _lay_case(case, x), _lay_case(case, V)
     if case.get('as_list'):
         xin, Vin = xin.tolist(), Vin.tolist()
     u = _is_utpm(guard(autils.base_and_dirs2utpm, xin, Vin), 'base_and_dirs2utpm')
@@ -195,7 +249,12 @@ def b2u_cases(draw):
     x = draw(_arr(shape, kind))
     V = draw(_arr(tuple(shape) + (P, D), kind))
     as_list = kind == 'f' and D > 0 and draw(st.integers(0, 4)) == 0
-    return {'x': x, 'V': V, 'as_list': as_list, 'steered': steered}
+    case = {'x': x, 'V': V, 'as_list': as_list, 'steered': steered}
+    if as_list:
+        case['layout'] = 'C'
+    else:
+        draw(_draw_layout(case, V.ndim, perm=False))      # x and V get the same kind of layout (x may be of rank 0, 1)
+    return case
 
 
 def _nt_b2u(case):
@@ -204,7 +263,7 @@ def _nt_b2u(case):
 
 def _cl_b2u(case):
     V = case['V']
-    return ['P=%d' % V.shape[-2], 'D=%d' % (V.shape[-1] + 1), 'rank=%d' % case['x'].ndim] + _dtype_classes(V)
+    return ['P=%d' % V.shape[-2], 'D=%d' % (V.shape[-1] + 1), 'rank=%d' % case['x'].ndim] + _dtype_classes(V) + _layout_classes(case)
 
 
 def prop_u2b_b2u(case, stats):
@@ -213,7 +272,7 @@ def prop_u2b_b2u(case, stats):
     data = case['data']
     D, P = data.shape[:2]
     shp = data.shape[2:]
-    u = UTPM(data.copy())
+    u = UTPM(_lay_case(case, data))
     x, V = guard(autils.utpm2base_and_dirs, u)
     x = np.asarray(x)
     V = np.asarray(V)
@@ -241,7 +300,9 @@ def u2b_cases(draw):
     shape = draw(gen.shapes(max_rank=3, max_side=3))
     data = draw(_arr((D, P) + tuple(shape), kind))
     data[0, :] = data[0, 0]          # one base point shared by all directions (precondition of the (x,V) format)
-    return {'data': data, 'steered': steered}
+    case = {'data': data, 'steered': steered}
+    draw(_draw_layout(case, data.ndim))
+    return case
 
 
 def _nt_data(case):
@@ -251,14 +312,14 @@ def _nt_data(case):
 
 def _cl_data(case):
     d = case['data']
-    return ['D=%d' % d.shape[0], 'P=%d' % d.shape[1], 'rank=%d' % (d.ndim - 2)] + _dtype_classes(d)
+    return ['D=%d' % d.shape[0], 'P=%d' % d.shape[1], 'rank=%d' % (d.ndim - 2)] + _dtype_classes(d) + _layout_classes(case)
 
 
 def prop_utpm2dirs(case, stats):
     data = case['data']
     D, P = data.shape[:2]
     shp = data.shape[2:]
-    u = UTPM(data.copy())
+    u = UTPM(_lay_case(case, data))
     Vbar = np.asarray(guard(autils.utpm2dirs, u))
     if Vbar.shape != shp + (P, D):
         raise Violation('utpm2dirs: shape %s, expected %s' % (Vbar.shape, shp + (P, D)))
@@ -276,7 +337,9 @@ def prop_utpm2dirs(case, stats):
 def utpm2dirs_cases(draw):
     D, P = draw(_DP)
     shape = draw(gen.shapes(max_rank=3, max_side=3))
-    return {'data': draw(_arr((D, P) + tuple(shape), draw(_kind())))}
+    case = {'data': draw(_arr((D, P) + tuple(shape), draw(_kind())))}
+    draw(_draw_layout(case, case['data'].ndim))
+    return case
 
 
 # ---------------------------------------------------------------------------
@@ -336,7 +399,7 @@ def prop_symvec(case, stats):
     is_utpm = case['operand'] == 'utpm'
     symvec, vecsym = _sym_calls(case['entry'], is_utpm)
     N = A.shape[-1]
-    wrap = (lambda a: UTPM(a.copy())) if is_utpm else (lambda a: a.copy())
+    wrap = (lambda a: UTPM(_lay_case(case, a))) if is_utpm else (lambda a: _lay_case(case, a))
     unwrap = (lambda y, what: _is_utpm(y, what).data) if is_utpm else (lambda y, what: np.asarray(y))
     Ain = wrap(A)
     if uplo is None:            # default argument: fully populated
@@ -371,7 +434,7 @@ def prop_vecsym(case, stats):
     is_utpm = case['operand'] == 'utpm'
     symvec, vecsym = _sym_calls(case['entry'], is_utpm)
     N = case['N']
-    vin = UTPM(v.copy()) if is_utpm else v.copy()
+    vin = UTPM(_lay_case(case, v)) if is_utpm else _lay_case(case, v)
     A = guard(vecsym, vin)
     Ad = _is_utpm(A, 'vecsym').data if is_utpm else np.asarray(A)
     _same_bits(Ad, _model_vecsym(v, N), 'vecsym(v)')
@@ -398,7 +461,9 @@ def symvec_cases(draw, operand):
         A = A.copy()
         A[..., iu[1], iu[0]] = A[..., iu[0], iu[1]]      # lower triangle := upper triangle, bit for bit
     entry = draw(st.sampled_from(['global', 'global-kw', 'class']))
-    return {'A': A, 'uplo': uplo, 'operand': operand, 'entry': entry, 'symmetric': bool(symmetric), 'steered': steered}
+    case = {'A': A, 'uplo': uplo, 'operand': operand, 'entry': entry, 'symmetric': bool(symmetric), 'steered': steered}
+    draw(_draw_layout(case, A.ndim, perm=(operand == 'utpm')))
+    return case
 
 
 @st.composite
@@ -411,7 +476,9 @@ def vecsym_cases(draw, operand):
     lead = draw(_DP) if operand == 'utpm' else ()
     v = draw(_arr(tuple(lead) + (N * (N + 1) // 2,), kind))
     entry = draw(st.sampled_from(['global', 'class']))
-    return {'v': v, 'N': N, 'operand': operand, 'entry': entry, 'steered': steered}
+    case = {'v': v, 'N': N, 'operand': operand, 'entry': entry, 'steered': steered}
+    draw(_draw_layout(case, v.ndim, perm=(operand == 'utpm')))
+    return case
 
 
 def _nt_sym(case):
@@ -423,7 +490,7 @@ def _nt_sym(case):
 def _cl_sym(case):
     a = case['A'] if 'A' in case else case['v']
     N = case['A'].shape[-1] if 'A' in case else case['N']
-    c = ['N=%d' % N, 'operand=' + case['operand'], 'entry=' + case['entry']] + _dtype_classes(a)
+    c = ['N=%d' % N, 'operand=' + case['operand'], 'entry=' + case['entry']] + _dtype_classes(a) + _layout_classes(case)
     if 'A' in case:
         c += ['uplo=%s' % case['uplo'], 'symmetric=%s' % case['symmetric']]
     if case['operand'] == 'utpm':
@@ -439,19 +506,24 @@ def _build_container(case):
     data = case['data']
     cshape = tuple(case['cshape'])
     pre = (slice(None), slice(None))
+    # elements: own contiguous data, or (elem_view) non-contiguous views into one big coefficient array
+    elem = (lambda idx: UTPM(data[pre + idx])) if case.get('elem_view') else (lambda idx: UTPM(data[pre + idx].copy()))
     if case['kind'] == 'objarr':
         c = np.empty(cshape, dtype=object)
         for idx in np.ndindex(*cshape):
-            c[idx] = UTPM(data[pre + idx].copy())
-        return c
+            c[idx] = elem(idx)
+        # the object container itself in the requested memory layout (C / Fortran / transposed / permuted / strided / reversed)
+        return _lay_case(case, c)
     if len(cshape) == 1:
-        return [UTPM(data[pre + (i,)].copy()) for i in range(cshape[0])]
-    return [[UTPM(data[pre + (i, j)].copy()) for j in range(cshape[1])] for i in range(cshape[0])]
+        return [elem((i,)) for i in range(cshape[0])]
+    if len(cshape) == 2:
+        return [[elem((i, j)) for j in range(cshape[1])] for i in range(cshape[0])]
+    return [[[elem((i, j, k)) for k in range(cshape[2])] for j in range(cshape[1])] for i in range(cshape[0])]
 
 
 def _prop_container(case, stats, fn, name):
     _note_steered(case, stats)
-    data = case['data']
+    data = case['data'] = np.ascontiguousarray(case['data'])
     cshape = tuple(case['cshape'])
     c = _build_container(case)
     z = _is_utpm(guard(fn, c), name)
@@ -477,7 +549,7 @@ def container_cases(draw, which):
     kind = draw(_kind())
     if which == 'as_utpm':
         kind = _steer_kind(kind, [KF_AS_UTPM_COMPLEX], steered)
-    crank = draw(st.sampled_from([1, 2, 2]))
+    crank = draw(st.sampled_from([1, 2, 2, 2, 3]))
     ckind = draw(st.sampled_from(['list', 'objarr']))
     eshape = tuple(draw(gen.shapes(max_rank=2, max_side=3)))
     if which == 'ndarray2utpm':
@@ -492,9 +564,18 @@ def container_cases(draw, which):
             if ckind == 'list':
                 eshape = ()
     cshape = tuple(draw(st.lists(st.integers(1, 3), min_size=crank, max_size=crank)))
-    D, P = draw(_DP)
+    if crank == 2 and draw(st.booleans()) and cshape[0] == cshape[1]:
+        cshape = (cshape[0], cshape[1] % 3 + 1)         # non-square rank-2 containers are the informative ones for layouts
+    if crank == 3:
+        eshape = eshape[:1]
+    D, P = draw(gen.dims(Dmax=4, Pmax=3)) if crank == 3 else draw(_DP)
     data = draw(_arr((D, P) + cshape + eshape, kind))
-    return {'data': data, 'cshape': cshape, 'kind': ckind, 'steered': steered}
+    case = {'data': data, 'cshape': cshape, 'kind': ckind, 'steered': steered, 'elem_view': draw(st.booleans())}
+    if ckind == 'objarr':
+        draw(_draw_layout(case, crank))
+    else:
+        case['layout'] = 'C'
+    return case
 
 
 def _nt_cont(case):
@@ -503,8 +584,10 @@ def _nt_cont(case):
 
 def _cl_cont(case):
     d = case['data']
-    return ['container=' + case['kind'], 'crank=%d' % len(case['cshape']), 'erank=%d' % (d.ndim - 2 - len(case['cshape'])),
-            'D=%d' % d.shape[0], 'P=%d' % d.shape[1]] + _dtype_classes(d)
+    cs = tuple(case['cshape'])
+    return ['container=' + case['kind'], 'crank=%d' % len(cs), 'erank=%d' % (d.ndim - 2 - len(cs)),
+            'container-square=%s' % (len(set(cs)) == 1), 'elem-view=%s' % bool(case.get('elem_view')),
+            'D=%d' % d.shape[0], 'P=%d' % d.shape[1]] + _dtype_classes(d) + _layout_classes(case)
 
 
 # ---------------------------------------------------------------------------
@@ -525,7 +608,7 @@ def prop_shift(case, stats):
     x = case['x']
     s = int(case['s'])
     D = x.shape[0]
-    X = UTPM(x.copy())
+    X = UTPM(_lay_case(case, x))
     call = (lambda a, k: a.shift(k)) if case['form'] == 'method' else (lambda a, k: UTPM.shift(a, k))
     y = _is_utpm(guard(call, X, s), 'shift')
     _same_bits(y.data, _model_shift(x, s), 'x.shift(%d).data' % s)
@@ -554,7 +637,9 @@ def shift_cases(draw):
     if s == 0 and KF.is_open(KF_SHIFT_ZERO):
         steered.append(KF_SHIFT_ZERO)
         s = draw(st.sampled_from([1, -1]))
-    return {'x': x, 's': s, 'form': draw(st.sampled_from(['method', 'class'])), 'steered': steered}
+    case = {'x': x, 's': s, 'form': draw(st.sampled_from(['method', 'class'])), 'steered': steered}
+    draw(_draw_layout(case, x.ndim))
+    return case
 
 
 def _nt_shift(case):
@@ -567,7 +652,7 @@ def _cl_shift(case):
     s = case['s']
     D = x.shape[0]
     sc = 's=0' if s == 0 else ('s=+-D' if abs(s) == D else ('s>0' if s > 0 else 's<0'))
-    return [sc, 'D=%d' % D, 'P=%d' % x.shape[1], 'rank=%d' % (x.ndim - 2)] + _dtype_classes(x)
+    return [sc, 'D=%d' % D, 'P=%d' % x.shape[1], 'rank=%d' % (x.ndim - 2)] + _dtype_classes(x) + _layout_classes(case)
 
 
 # ---------------------------------------------------------------------------
@@ -586,7 +671,7 @@ def prop_coeff_op(case, stats):
     x = case['x']
     sl = tuple(case['sl'])
     shp = tuple(case['shp'])
-    X = UTPM(x.copy())
+    X = UTPM(_lay_case(case, x))
     call = (lambda a, s, h: a.coeff_op(s, h)) if case['form'] == 'method' else (lambda a, s, h: algopy.coeff_op(a, s, h))
     y = _is_utpm(guard(call, X, sl, shp), 'coeff_op')
     sel = _model_select(x, sl)
@@ -632,8 +717,10 @@ def coeff_op_cases(draw):
         opts.append((sel[0] * sel[1],) + sel[2:])
     opts = [o for o in opts if len(o) >= 2]
     shp = draw(st.sampled_from(opts))
-    return {'x': x, 'sl': tuple(sl), 'shp': tuple(int(n) for n in shp), 'split': draw(st.integers(1, D - 1)),
+    case = {'x': x, 'sl': tuple(sl), 'shp': tuple(int(n) for n in shp), 'split': draw(st.integers(1, D - 1)),
             'form': draw(st.sampled_from(['method', 'global']))}
+    draw(_draw_layout(case, x.ndim))
+    return case
 
 
 def _nt_coeff(case):
@@ -644,7 +731,7 @@ def _nt_coeff(case):
 def _cl_coeff(case):
     x = case['x']
     return ['nslices=%d' % len(case['sl']), 'D=%d' % x.shape[0], 'P=%d' % x.shape[1], 'rank=%d' % (x.ndim - 2),
-            'reshape=%s' % ('same' if tuple(case['shp']) == _model_select(x, tuple(case['sl'])).shape else 'other')] + _dtype_classes(x)
+            'reshape=%s' % ('same' if tuple(case['shp']) == _model_select(x, tuple(case['sl'])).shape else 'other')] + _dtype_classes(x) + _layout_classes(case)
 
 
 # ---------------------------------------------------------------------------
@@ -657,12 +744,14 @@ def prop_combine(case, stats):
     rows, cols = list(case['rows']), list(case['cols'])
     r0 = [sum(rows[:i]) for i in range(len(rows) + 1)]
     c0 = [sum(cols[:j]) for j in range(len(cols) + 1)]
-    blocks = [[UTPM(data[:, :, r0[i]:r0[i + 1], c0[j]:c0[j + 1]].copy()) for j in range(len(cols))] for i in range(len(rows))]
+    blk = (lambda a: a) if case.get('elem_view') else (lambda a: a.copy())      # blocks as views of one buffer, or own data
+    blocks = [[UTPM(blk(data[:, :, r0[i]:r0[i + 1], c0[j]:c0[j + 1]])) for j in range(len(cols))] for i in range(len(rows))]
     if case['kind'] == 'objarr':
         arg = np.empty((len(rows), len(cols)), dtype=object)
         for i in range(len(rows)):
             for j in range(len(cols)):
                 arg[i, j] = blocks[i][j]
+        arg = _lay_case(case, arg)
     else:
         arg = blocks
     X = _is_utpm(guard(UTPM.combine_blocks, arg), 'combine_blocks')
@@ -685,7 +774,12 @@ def combine_cases(draw):
     cols = draw(st.lists(st.integers(1, 3), min_size=1, max_size=3))
     D, P = draw(gen.dims(Dmax=4, Pmax=3))
     data = draw(_arr((D, P, sum(rows), sum(cols)), kind))
-    return {'data': data, 'rows': rows, 'cols': cols, 'kind': ckind, 'steered': steered}
+    case = {'data': data, 'rows': rows, 'cols': cols, 'kind': ckind, 'steered': steered, 'elem_view': draw(st.booleans())}
+    if ckind == 'objarr':
+        draw(_draw_layout(case, 2, perm=False))
+    else:
+        case['layout'] = 'C'
+    return case
 
 
 def _nt_combine(case):
@@ -695,8 +789,9 @@ def _nt_combine(case):
 def _cl_combine(case):
     d = case['data']
     sq = all(r == c for r in case['rows'] for c in case['cols'])
-    return ['container=' + case['kind'], 'blocks=%dx%d' % (len(case['rows']), len(case['cols'])),
-            'square-blocks=%s' % sq, 'D=%d' % d.shape[0], 'P=%d' % d.shape[1]] + _dtype_classes(d)
+    return (['container=' + case['kind'], 'blocks=%dx%d' % (len(case['rows']), len(case['cols'])),
+             'square-blocks=%s' % sq, 'elem-view=%s' % bool(case.get('elem_view')), 'D=%d' % d.shape[0], 'P=%d' % d.shape[1]]
+            + _dtype_classes(d) + _layout_classes(case))
 
 
 # ---------------------------------------------------------------------------
